@@ -7,6 +7,7 @@ import (
 	"hash/fnv"
 	"os"
 	"sort"
+	"strings"
 	"sync"
 	"testing"
 )
@@ -157,6 +158,13 @@ func (r *Recorder) Require(dim, value string, min int) {
 // fails the test.
 func (r *Recorder) Fail(t interface{ Fatalf(string, ...any) }, c any, format string, a ...any) {
 	msg := fmt.Sprintf(format, a...)
+	if strings.HasPrefix(msg, "harness:") {
+		// the harness could not do its own part (build a packet, set a state up): that says
+		// nothing about the property. No case file is written, so the driver reports the run
+		// as inconclusive (exit 2), never as a violation.
+		t.Fatalf("HARNESS ERROR %s: %s\ncase: %s", r.propertyName(), msg, JSON(c))
+		return
+	}
 	if path := os.Getenv("VERIF_CASEFILE"); path != "" && r != nil {
 		doc := map[string]any{"property": r.Property, "test": r.Test, "case": c, "message": msg}
 		bz, err := json.MarshalIndent(doc, "", " ")
